@@ -243,6 +243,8 @@ def primitives(interp):
 
     @_b("is_same")
     def is_same(interp, a, b):
+        if isinstance(a, (SBool, bool)) and isinstance(b, (SBool, bool)):
+            return ops.mkbool(ops.zb(a) == ops.zb(b))   # True / False are singletons: identity is equality of truth values
         return a is b
     ns["is_same"] = is_same
 
